@@ -675,6 +675,30 @@ func c13R2(r *Report) {
 		}
 		r.Sentinel("R2.sum", nAcc, 1)
 	}
+	// a piece table matching the length: Pieces.MetadataComplete sizes the table with ceil(length / piece size) — the
+	// same quantity the hash-count check (G9) validated. n/K+1 is one too many at multiples, (n-1)/K+1 gives one piece
+	// for an empty torrent (accepted: all files empty) whose hash table is empty.
+	{
+		r.Fn(pmc)
+		nT := 0
+		allInstrs(pmc, func(in ssa.Instruction) {
+			ms, ok := in.(*ssa.MakeSlice)
+			if !ok {
+				return
+			}
+			nT++
+			kind, num, _ := divFormOf(ms.Len)
+			okForm := kind == divCeil && num != nil
+			if kind == divPredPlus1 && num != nil {
+				// correct only under a guard that the length is positive
+				iv := (&IntEnv{}).At(num, ms.Block())
+				okForm = iv.Lo >= 1
+			}
+			r.Check(okForm, "R2", "Pieces.MetadataComplete/table-size-is-ceil", ms.Pos(), "the piece table has ceil(length / piece size) entries",
+				fmt.Sprintf("the piece table is sized by %s (%s), not by ceil(length / piece size) as the hash-count check assumes: for some lengths (0, or exact multiples) the table has one piece more than there are hashes — a piece that can never be verified", exprStr(ms.Len), kind))
+		})
+		r.Sentinel("R2.table", nT, 1)
+	}
 	// make([]uint8, chunks) dominated by the fits-check (G8 is checked in R1): the size is non-negative
 	allInstrs(mc, func(in ssa.Instruction) {
 		ms, ok := in.(*ssa.MakeSlice)
